@@ -36,11 +36,19 @@ type Spec struct {
 	Conc   int  `json:"conc,omitempty"`
 	Split  int  `json:"split,omitempty"` // split point in the control list (mod number of controls)
 	Procs  int  `json:"procs,omitempty"`
+	Warm   bool `json:"warm,omitempty"` // the DiffContext has diffed another pair before (generated cases; literal cases: enumWarm)
 }
 
-func diff(old, nw []byte, parts, conc int) ([]*bsdiff.Control, error) {
+// diff runs the differ. warm: the DiffContext is not new - it has just diffed another pair (the same two
+// strings with their roles swapped), the way rediff uses ONE context for all the files of a patch.
+func diff(old, nw []byte, parts, conc int, warm bool) ([]*bsdiff.Control, error) {
 	var ctrls []*bsdiff.Control
 	dc := &bsdiff.DiffContext{Partitions: parts, SuffixSortConcurrency: conc}
+	if warm {
+		if err := dc.Do(bytes.NewReader(nw), bytes.NewReader(old), func(proto.Message) error { return nil }, h.Quiet()); err != nil {
+			return nil, fmt.Errorf("warm-up diff (roles swapped): %w", err)
+		}
+	}
 	err := dc.Do(bytes.NewReader(old), bytes.NewReader(nw), func(m proto.Message) error {
 		ctrls = append(ctrls, proto.Clone(m).(*bsdiff.Control))
 		return nil
@@ -93,8 +101,8 @@ type verdict struct {
 	seeks int
 }
 
-func judge(old, nw []byte, parts, conc, split int, full bool) (v verdict) {
-	ctrls, err := diff(old, nw, parts, conc)
+func judge(old, nw []byte, parts, conc, split int, full bool, warm bool) (v verdict) {
+	ctrls, err := diff(old, nw, parts, conc, warm)
 	if err != nil {
 		v.fail = fmt.Sprintf("differ failed: %v", err)
 		return
@@ -202,6 +210,9 @@ func allStrings(alpha, maxLen int) [][]byte {
 	return out
 }
 
+// enumWarm decides, from the case alone, whether an enumerated case runs on a used DiffContext (half of them)
+func enumWarm(old, nw []byte) bool { return (len(old)+len(nw))%2 == 1 }
+
 func check(s Spec) h.Result {
 	if s.Procs > 0 {
 		defer runtime.GOMAXPROCS(runtime.GOMAXPROCS(s.Procs))
@@ -209,15 +220,20 @@ func check(s Spec) h.Result {
 	old := s.Old.Bytes()
 	if s.NewAll > 0 {
 		for _, nw := range allStrings(2, s.NewAll) {
-			if v := judge(old, nw, s.Parts, s.Conc, 0, false); v.fail != "" {
+			if v := judge(old, nw, s.Parts, s.Conc, 0, false, enumWarm(old, nw)); v.fail != "" {
 				return h.Failf("old=%q new=%q partitions=%d: %s", old, nw, s.Parts, v.fail)
 			}
 		}
 		return h.Result{}
 	}
 	nw := s.New.Bytes()
-	v := judge(old, nw, s.Parts, s.Conc, s.Split, true)
+	// (the warm-up doubles the cost: generated cases above 512 KiB run on a new context)
+	warm := (s.Warm && len(old)+len(nw) <= 1<<19) || (s.New.C == nil && s.Old.C == nil && enumWarm(old, nw))
+	v := judge(old, nw, s.Parts, s.Conc, s.Split, true, warm)
 	cl := []string{fmt.Sprintf("partitions:%d", s.Parts)}
+	if warm {
+		cl = append(cl, "differ:context-used-before")
+	}
 	if len(old) == 0 {
 		cl = append(cl, "old:empty")
 	}
@@ -259,7 +275,7 @@ func TestEnum(t *testing.T) {
 		for parts := 0; parts <= maxParts; parts++ {
 			h.WriteCurrent("C12", "enum", Spec{Old: Blob{Lit: string(old)}, NewAll: maxNew, Parts: parts})
 			for _, nw := range news {
-				v := judge(old, nw, parts, 0, 0, false)
+				v := judge(old, nw, parts, 0, 0, false, enumWarm(old, nw))
 				if v.fail != "" {
 					spec := Spec{Old: Blob{Lit: string(old)}, New: Blob{Lit: string(nw)}, Parts: parts}
 					ev.Failures++
@@ -329,6 +345,7 @@ var propRandom = h.Prop[Spec]{
 		s.Conc = rapid.IntRange(-1, 4).Draw(t, "concurrency")
 		s.Split = rapid.IntRange(0, 1000).Draw(t, "split")
 		s.Procs = rapid.SampledFrom([]int{0, 1, 2, 16}).Draw(t, "gomaxprocs")
+		s.Warm = rapid.IntRange(0, 2).Draw(t, "used-context") == 0
 		return s
 	},
 	Check: check,
